@@ -12,12 +12,12 @@ Definition of_slice (r : slice_result Z) : res (list Z) := match r with SliceOk 
 
 (* the capacity hypotheses of Props/C06.v follow from the representation invariant *)
 Lemma repr_cap_bounds s cs : repr s cs ->
-  (cs <> [] -> Z.of_nat (length cs) + 1 <= cap s) /\ (cs = [] -> cap s = 0).
+  (cs <> [] -> Z.of_nat (length cs) + 1 <= cap s) /\ (cs = [] -> cap s = 0 \/ cap s = 1).
 Proof.
-  intros H. split.
-  - intros N. destruct cs as [|c cs]; [congruence|]. rewrite (wf_cap _ _ H).
+  intros H. pose proof (wf_cap _ _ H) as W. split.
+  - intros N. destruct cs as [|c cs]; [congruence|]. rewrite W.
     pose proof (clen_le_len_E _ (repr_tchars _ _ H)). unfold clen in *. lia.
-  - intros ->. rewrite (repr_nil _ H). reflexivity.
+  - intros ->. exact W.
 Qed.
 
 Lemma nth_error_nth (l : list Z) n : (n < length l)%nat -> nth_error l n = Some (nth n l 0).
@@ -31,7 +31,7 @@ Proof.
   intros H. destruct (repr_cap_bounds _ _ H) as [Hne Hemp]. unfold s_index, text_index, clen.
   destruct (i <? 1) eqn:I1; [replace ((1 <=? i) && (i <=? Z.of_nat (length cs))) with false by lia; reflexivity|].
   destruct cs as [|c cs].
-  { rewrite (Hemp eq_refl). replace ((i >? 0) || (0 <=? 1)) with true by lia.
+  { replace ((i >? cap s) || (cap s <=? 1)) with true by (destruct (Hemp eq_refl); lia).
     replace ((1 <=? i) && (i <=? Z.of_nat (length (@nil Z)))) with false by (cbn [length]; lia). reflexivity. }
   assert (Hc : Z.of_nat (length (c :: cs)) + 1 <= cap s) by (apply Hne; discriminate).
   destruct ((i >? cap s) || (cap s <=? 1)) eqn:G.
@@ -47,7 +47,7 @@ Proof.
   intros H. destruct (repr_cap_bounds _ _ H) as [Hne Hemp]. unfold s_replace, text_replace, clen.
   destruct (i <? 1) eqn:I1; [replace ((1 <=? i) && (i <=? Z.of_nat (length cs))) with false by lia; reflexivity|].
   destruct cs as [|c0 cs].
-  { rewrite (Hemp eq_refl). replace ((i >? 0) || (0 <=? 1)) with true by lia.
+  { replace ((i >? cap s) || (cap s <=? 1)) with true by (destruct (Hemp eq_refl); lia).
     replace ((1 <=? i) && (i <=? Z.of_nat (length (@nil Z)))) with false by (cbn [length]; lia). reflexivity. }
   assert (Hc : Z.of_nat (length (c0 :: cs)) + 1 <= cap s) by (apply Hne; discriminate).
   destruct ((i >? cap s) || (cap s <=? 1)) eqn:G.
